@@ -37,6 +37,7 @@ MethodTag(r) == IF r.sched # << >> THEN (IF Len(r.sched) = 1 THEN r.sched[1][2] 
 FreeCase(r) ==
   \/ r.country = "jp" /\ r.from # NoDay /\ r.to # NoTo                \* tax_report_jp declines a from-date together with a to-date
   \/ \E k \in 1..Len(r.sched) : r.sched[k][2] \notin AcceptedMethods(r.country)   \* schedule naming a method the country does not accept
+  \/ r.fault = "config_bom"                                           \* a config file that starts with a byte order mark: whether it is read or rejected is not stated
 
 Supported(r) ==
   /\ r.method = "" \/ r.method \in AcceptedMethods(r.country)
